@@ -1531,7 +1531,10 @@ fn history_part(rep: &mut Report, tier: Tier, seed: u64) {
             // the predicate shape and the target name the path's weak spot; the operations and
             // the literal's type are in the detail
             let shape = cell_of(&q2).map(|(s, _, t)| format!("{s}|{t}")).unwrap_or_else(|| q2.skeleton());
-            let sig = format!("c10:hist|{class2}|{shape}|{k}");
+            // NaN in the reduced witness is its own class: the zone map ignores NaN (finding F7), so a
+            // history that overwrites a number with NaN shows that root cause as a "maintenance" difference
+            let nan = qgen::graph_json(&g2).to_string().contains("NaN") || steps2.iter().flatten().any(|o| o.show().contains("NaN"));
+            let sig = if nan { format!("c10:hist|{class2}|{shape}|{k}|nan_involved") } else { format!("c10:hist|{class2}|{shape}|{k}") };
             rep.deviation(
                 &sig,
                 json!({
